@@ -33,6 +33,7 @@ namespace MayVerif.Join
   | .wtake .. | .idle .waited | .idle (.isDone true) | .ptake | .panictake | .idle (.joined _) => true
   | _ => false
 @[grind] def atPanicTake : JPc → Bool | .panictake => true | _ => false
+@[grind] def isUnwound : JPc → Bool | .unwound => true | _ => false
 @[grind] def joinedRes : JPc → Option JRes | .idle (.joined r) => some r | _ => none
 
 structure Inv (s : St) : Prop where
@@ -66,7 +67,7 @@ structure Inv (s : St) : Prop where
   v1 : ∀ b, s.sh.nextB ≤ b → s.sh.tok b = false
   g0 : ∀ t b, atStore (s.pcs t) = some b → s.sh.tok b = false ∧ s.sh.toWake ≠ some b ∧ s.fpc ≠ .unpark b
   g1 : ∀ b, s.sh.toWake = some b → s.sh.tok b = false ∧ s.fpc ≠ .unpark b
-  s1 : s.n = 1 → s.sh.clobber = false ∧ ∀ b, s.sh.toWake = some b → holds (s.pcs 0) = some b ∧ inA (s.pcs 0) = true
+  s1 : s.n = 1 → s.sh.clobber = false ∧ ∀ b, s.sh.toWake = some b → (holds (s.pcs 0) = some b ∧ inA (s.pcs 0) = true) ∨ isUnwound (s.pcs 0) = true
 
 theorem inv_init (n : Nat) : Inv (init n) := by
   constructor <;> simp [init, past, afterData, holds, inA, isPark, atStore, inJoin, prePtake, prePanic, retd, atPanicTake, joinedRes]
